@@ -117,6 +117,11 @@ def run(out, tier, rng, work):
     runs, worst = [], {}
     for k in range(n):
         sc = tpconf.gen(rng, k, big=(k % 20 == 0))
+        if k % 10 == 3 and sc['dll'] == 'j1939-21' and not sc['bam']:
+            # the peer answers with hold CTS frames only and then falls silent: no data may follow a hold that is not renewed
+            sc['role'] = 'stack-originator'
+            sc['plan']['holds'] = [rng.choice([1, 2, 3])]
+            sc['plan']['silent_after_hold'] = True
         res = tpconf.runner(sc)
         runs.append((sc, res))
         out.add_case(scen.sc_hash(sc), sum(1 for e in res.trace if e[2] == 'tx') > 2,
